@@ -584,6 +584,41 @@ func (u *Unit) intrinsic(st *State, fr *Frame, in *ssa.Call, fn *ssa.Function, a
 			return one(tv)
 		}
 	}
+	// package-level functions of a few pure standard-library packages, over scalars and strings only: total, no
+	// effects, arbitrary result (assumption A6, listed per run under assumed_externals)
+	if fn.Signature.Recv() == nil && len(fn.Blocks) >= 0 {
+		switch pkgPathOf(fn) {
+		case "strings", "strconv", "unicode", "unicode/utf8", "unicode/utf16", "math":
+			scalarOnly := true
+			for i := 0; i < fn.Signature.Params().Len(); i++ {
+				switch t := fn.Signature.Params().At(i).Type().Underlying().(type) {
+				case *types.Basic:
+				case *types.Slice:
+					if !isByteType(t.Elem()) {
+						scalarOnly = false
+					}
+				default:
+					scalarOnly = false
+				}
+			}
+			rs := fn.Signature.Results()
+			if scalarOnly && rs.Len() >= 1 {
+				u.eng.noteAssumed(name)
+				if rs.Len() == 1 {
+					return one(u.havoc(st, rs.At(0).Type(), fn.Name()))
+				}
+				tv := TupleV{}
+				for i := 0; i < rs.Len(); i++ {
+					if isErrorType(rs.At(i).Type()) {
+						tv = append(tv, u.havoc(st, rs.At(i).Type(), fn.Name()+".err"))
+					} else {
+						tv = append(tv, u.havoc(st, rs.At(i).Type(), fn.Name()))
+					}
+				}
+				return one(tv)
+			}
+		}
+	}
 	return nil, false, false
 }
 
